@@ -1,8 +1,8 @@
 (* C19 — request timeouts are bounded and never wedge the channel.
    model : Model.SendCorr (the four-way select of sendRequestWithTimeout, popHandler, the dispatcher and its receive
            gate rcvLocker; open() = a caller of kind KOpen that unlocks the gate when it returns).
-   `step false` is the code as it is (after the fix "release the response handler when sending the request fails");
-   `step true` is the code before that fix.
+   `step VNow` is the code as it is; `step VGateOld` the code before fix 6070e19 (dispatcher/open() hand-off);
+   `step VLeaky` the code before fix 584974e (release the response handler when sending the request fails).
    What is a theorem here is the LOGIC (every branch releases the slot, nothing a caller does blocks the dispatcher,
    every branch of the select is enabled without cooperation).  The wall-clock bound timeout + timeoutLeniency is a
    runtime fact and is measured by the harness. *)
@@ -14,17 +14,17 @@ Open Scope Z_scope.
 (* after a call has returned -- response, timer, ctx, disconnect, duplicate id, send error -- under every interleaving
    with the dispatcher and every peer behaviour, its request id is not in the handler table any more *)
 Theorem C19_slot_released : forall seed s t k w id r,
-  reachable false seed s -> cs s t = CDone k w id r -> forall i, handlers s i <> Some t.
+  reachable VNow seed s -> cs s t = CDone k w id r -> forall i, handlers s i <> Some t.
 Proof. intros; eapply slot_released; eassumption. Qed.
 
 (* what the fix repaired: before it, a failed send left the handler registered for ever *)
 Definition C19_slot_released_before_fix : Prop := forall seed s t k w id r,
-  reachable true seed s -> cs s t = CDone k w id r -> forall i, handlers s i <> Some t.
+  reachable VLeaky seed s -> cs s t = CDone k w id r -> forall i, handlers s i <> Some t.
 
 Theorem C19_refuted_slot_leak_before_fix : ~ C19_slot_released_before_fix.
 Proof.
   intro H.
-  assert (R : reachable true 0 (finish (set_cs (set_handlers (set_alloc (set_cs (set_next_req (init 0) 1)
+  assert (R : reachable VLeaky 0 (finish (set_cs (set_handlers (set_alloc (set_cs (set_next_req (init 0) 1)
                (updN (cs (init 0)) 0%nat (CHasId KReq 676 1))) 1%nat (updN (g_serial (init 0)) 0%nat 1%nat))
                (updZ (handlers (init 0)) 1 (Some 0%nat))) (updN (updN (cs (init 0)) 0%nat (CHasId KReq 676 1)) 0%nat (CRegd KReq 676 1)))
                0%nat KReq 676 1 RSendErr)).
@@ -36,19 +36,19 @@ Qed.
    thread, and that step releases the slot *)
 Theorem C19_timer_enabled : forall s t k w id,
   cs s t = CWait k w id ->
-  exists s', step false s (ETimer t) = Some s' /\ cs s' t = CDone k w id RTimeout /\ handlers s' id = None.
+  exists s', step VNow s (ETimer t) = Some s' /\ cs s' t = CDone k w id RTimeout /\ handlers s' id = None.
 Proof. intros; eapply timer_enabled; eassumption. Qed.
 
 Theorem C19_ctx_enabled : forall s t k w id,
   cs s t = CWait k w id ->
-  exists s', step false s (ECtx t) = Some s' /\ cs s' t = CDone k w id RCtx /\ handlers s' id = None.
+  exists s', step VNow s (ECtx t) = Some s' /\ cs s' t = CDone k w id RCtx /\ handlers s' id = None.
 Proof. intros; eapply ctx_enabled; eassumption. Qed.
 
 (* later responses are still delivered: in ANY reachable state (whatever timed out before) with the dispatcher idle,
    a response for a waiting caller reaches exactly that caller *)
 Theorem C19_later_responses_delivered : forall seed s t w id m,
-  reachable false seed s -> d s = DIdle -> cs s t = CWait KReq w id -> handlers s id = Some t -> m_id m = id ->
-  exists s', run false [ENet m; EPop; ELock; EDeliver; ETake t] s = Some s' /\
+  reachable VNow seed s -> d s = DIdle -> cs s t = CWait KReq w id -> handlers s id = Some t -> m_id m = id ->
+  exists s', run VNow [ENet m; EPop; ELock; EDeliver; ETake t] s = Some s' /\
              exists r, cs s' t = CDone KReq w id r /\ res_msg r = Some (net_n s, m).
 Proof. intros; eapply delivery_from_idle; eassumption. Qed.
 
@@ -56,72 +56,91 @@ Proof. intros; eapply delivery_from_idle; eassumption. Qed.
    while that gate is locked *)
 Theorem C19_dispatcher_progress : forall s,
   d s <> DExited -> (d s = DWaitRcv /\ rcv_locked s = true) \/
-  exists e s', step false s e = Some s' /\ match e with ENet _ | EEOF | EPop | ELock | EDeliver | EResume => True | _ => False end.
+  exists e s', step VNow s e = Some s' /\ match e with ENet _ | EEOF | EPop | ELock | EDeliver | EResume => True | _ => False end.
 Proof. intros; eapply dispatcher_progress; eassumption. Qed.
 
 (* ---- the receive gate (OPN / rcvLocker hand-off) ---- *)
 
-(* full statement: whenever the gate is locked, some open() call is still in progress (it unlocks the gate when it
-   returns, and C19_timer_enabled says it can always return) *)
-Definition C19_gate_statement : Prop := forall seed s,
-  reachable false seed s -> rcv_locked s = true -> exists t, active_opener (cs s t) = true.
+(* FULL (code as it is, fix 6070e19): in every reachable state -- every interleaving of any number of callers and
+   open() calls with the dispatcher, every peer behaviour incl. unsolicited and mistyped OpenSecureChannelResponses --
+   the gate is locked only while an open() call is in progress.  That call unlocks the gate when it returns, and it
+   can always return (C19_timer_enabled); so the dispatcher is never left waiting at the gate *)
+Theorem C19_gate : forall seed s,
+  reachable VNow seed s -> rcv_locked s = true -> exists t, open_by s = Some t /\ active_opener (cs s t) = true.
+Proof. intros; eapply gate_locked_only_while_opening; eassumption. Qed.
 
-Definition wedged (s : st) : Prop :=
-  rcv_locked s = true /\ (forall t, active_opener (cs s t) = false) /\ (d s = DLocked 0 (Msg 1 (Some opn_response_type_id) false (Some 0%nat)) 0%nat \/ d s = DWaitRcv).
+Theorem C19_gate_open_when_not_opening : forall seed s,
+  reachable VNow seed s -> (forall t, active_opener (cs s t) = false) -> rcv_locked s = false.
+Proof. intros; eapply gate_open_when_not_opening; eassumption. Qed.
 
-(* REFUTED (honest peer): the renewal's OpenSecureChannelResponse arrives exactly as the renewal request times out.
-   The dispatcher has taken the handler (EPop), open() leaves through the timer branch and runs its deferred
-   rcvLocker.unlock(), THEN the dispatcher locks the gate; nobody is left to unlock it: every later response stays
-   undelivered until Close. *)
+(* the two orderings that wedged the dispatcher before the fix now end with the gate open, the dispatcher idle and a
+   later request answered *)
 Definition race_trace : list ev :=
   [EAlloc 0%nat KOpen opn_response_type_id; ERegister 0%nat; EWrite 0%nat true;
    ENet (Msg 1 (Some opn_response_type_id) false (Some 0%nat)); EPop; ETimer 0%nat; ELock; EDeliver].
 
-Theorem C19_refuted_gate_race : exists s, reachableP honest false 0 s /\ wedged s /\ d s = DWaitRcv.
-Proof.
-  eexists. split; [exists race_trace; vm_compute; reflexivity|].
-  split; [|reflexivity]. split; [reflexivity|]. split; [|right; reflexivity].
-  intros [|t]; reflexivity.
-Qed.
-
-(* REFUTED (faulty peer): an OpenSecureChannelResponse carrying the request id of an ordinary request *)
 Definition unsolicited_trace : list ev :=
   [EAlloc 0%nat KReq 676; ERegister 0%nat; EWrite 0%nat true;
    ENet (Msg 1 (Some opn_response_type_id) false None); EPop; ELock; EDeliver; ETake 0%nat].
 
-Theorem C19_refuted_gate_unsolicited : exists s, reachable false 0 s /\ rcv_locked s = true /\ d s = DWaitRcv /\
+Definition later_request : list ev :=
+  [EResume; EAlloc 1%nat KReq 676; ERegister 1%nat; EWrite 1%nat true;
+   ENet (Msg 2 (Some 676) false (Some 1%nat)); EPop; ELock; EDeliver; EResume; ETake 1%nat].
+
+Example C19_gate_witnesses_now_complete :
+  (exists s, run VNow (race_trace ++ later_request) (init 0) = Some s /\ rcv_locked s = false /\ disp_code s = 0 /\
+             map (outcome s) [0%nat; 1%nat] = [(3, 1, -1); (0, 2, 1)]) /\
+  (exists s, run VNow (unsolicited_trace ++ later_request) (init 0) = Some s /\ rcv_locked s = false /\ disp_code s = 0 /\
+             map (outcome s) [0%nat; 1%nat] = [(2, 1, 0); (0, 2, 1)]).
+Proof. split; eexists; (split; [vm_compute; reflexivity|]); repeat split; vm_compute; reflexivity. Qed.
+
+(* what the fix repaired (VGateOld = the code before it) *)
+Definition C19_gate_statement_before_fix : Prop := forall seed s,
+  reachable VGateOld seed s -> rcv_locked s = true -> exists t, active_opener (cs s t) = true.
+
+(* honest peer: the renewal's OpenSecureChannelResponse arrives exactly as the renewal request times out.  The
+   dispatcher has taken the handler (EPop), open() leaves through the timer branch and runs its deferred
+   rcvLocker.unlock(), THEN the dispatcher locks the gate; nobody is left to unlock it *)
+Theorem C19_refuted_before_fix_gate_race : exists s, reachableP honest VGateOld 0 s /\
+  rcv_locked s = true /\ d s = DWaitRcv /\ (forall t, active_opener (cs s t) = false).
+Proof.
+  eexists. split; [exists race_trace; vm_compute; reflexivity|].
+  split; [reflexivity|]. split; [reflexivity|]. intros [|t]; reflexivity.
+Qed.
+
+(* faulty peer: an OpenSecureChannelResponse carrying the request id of an ordinary request *)
+Theorem C19_refuted_before_fix_gate_unsolicited : exists s, reachable VGateOld 0 s /\ rcv_locked s = true /\ d s = DWaitRcv /\
   (forall t, active_opener (cs s t) = false) /\ outcome s 0%nat = (2, 1, 0).
 Proof.
   eexists. split; [exists unsolicited_trace; vm_compute; reflexivity|].
   split; [reflexivity|]. split; [reflexivity|]. split; [|reflexivity]. intros [|t]; reflexivity.
 Qed.
 
-Theorem C19_refuted_gate : ~ C19_gate_statement.
+Theorem C19_refuted_before_fix_gate : ~ C19_gate_statement_before_fix.
 Proof.
-  intro H. destruct C19_refuted_gate_race as (s & R & (L & A & _) & _).
+  intro H. destruct C19_refuted_before_fix_gate_race as (s & R & L & _ & A).
   destruct (H 0 s (reachableP_reachable _ _ _ _ R) L) as [t X]. rewrite A in X. discriminate.
 Qed.
 
-(* PARTIAL: on the runs that use the gate as intended (gate_ok: an OpenSecureChannelResponse only ever matches a
-   handler registered by open(), and open() does not give up in the window between the dispatcher taking its handler
-   and delivering) the full statement holds *)
-Theorem C19_partial_gate : forall seed s,
-  reachableP gate_ok false seed s -> rcv_locked s = true -> exists t, active_opener (cs s t) = true.
-Proof. intros; eapply gate_locked_only_while_opening; eassumption. Qed.
-
-(* gate_ok is satisfiable by a real renewal: open() gets its response while a request is pending, the gate is locked
-   during the hand-off and released when open() returns; the pending request is answered afterwards *)
-Example C19_partial_gate_nonvacuous : exists s,
-  reachableP gate_ok false 0 s /\ rcv_locked s = false /\ disp_code s = 0 /\
+(* a real renewal under the fixed code: open() gets its response while a request is pending, the gate is locked during
+   the hand-off and released when open() returns; the pending request is answered afterwards *)
+Example C19_gate_nonvacuous : exists s1 s,
+  reachable VNow 0 s1 /\ rcv_locked s1 = true /\ disp_code s1 = 4 /\
+  reachable VNow 0 s /\ rcv_locked s = false /\ disp_code s = 0 /\
   map (outcome s) [0%nat; 1%nat] = [(0, 1, 1); (0, 2, 0)].
 Proof.
-  eexists. split.
+  eexists. eexists. split.
   - exists [EAlloc 0%nat KReq 676; ERegister 0%nat; EWrite 0%nat true;
             EAlloc 1%nat KOpen opn_response_type_id; ERegister 1%nat; EWrite 1%nat true;
-            ENet (Msg 2 (Some opn_response_type_id) false (Some 1%nat)); EPop; ELock; EDeliver; ETake 1%nat; EResume;
-            ENet (Msg 1 (Some 676) false (Some 0%nat)); EPop; ELock; EDeliver; EResume; ETake 0%nat].
+            ENet (Msg 2 (Some opn_response_type_id) false (Some 1%nat)); EPop; ELock; EDeliver].
     vm_compute. reflexivity.
-  - vm_compute. repeat split; reflexivity.
+  - split; [reflexivity|]. split; [reflexivity|]. split.
+    + exists [EAlloc 0%nat KReq 676; ERegister 0%nat; EWrite 0%nat true;
+              EAlloc 1%nat KOpen opn_response_type_id; ERegister 1%nat; EWrite 1%nat true;
+              ENet (Msg 2 (Some opn_response_type_id) false (Some 1%nat)); EPop; ELock; EDeliver; ETake 1%nat; EResume;
+              ENet (Msg 1 (Some 676) false (Some 0%nat)); EPop; ELock; EDeliver; EResume; ETake 0%nat].
+      vm_compute. reflexivity.
+    + repeat split; vm_compute; reflexivity.
 Qed.
 
 (* ties to the source *)
@@ -130,8 +149,13 @@ Theorem C19_tie_source_shape :
   src_select_branches = [("<-ctx.Done()", true); ("<-s.disconnected", true); ("msg := <-ch", false); ("<-timer.C", true)]%string /\
   src_sync_sendRequestWithTimeout = ["s.sendAsyncWithTimeout(ctx, req, reqID, instance, authToken, respRequired, timeout)";
      "s.pendingReq.Done()"; "s.popHandler(reqID)"; "s.popHandler(reqID)"; "s.popHandler(reqID)"]%string /\
-  src_sync_dispatcher = ["s.Receive(ctx)"; "s.popHandler(msg.RequestID)"; "s.rcvLocker.lock()"; "s.rcvLocker.waitIfLock()"]%string /\
-  In "s.popHandler(reqID)"%string src_sync_sendAsyncWithTimeout.
+  src_sync_dispatcher = ["s.Receive(ctx)"; "s.popHandler(msg.RequestID)";
+     "s.rcvLocker.lockIf(func() bool { return msg.RequestID != 0 && atomic.LoadUint32(&s.openingReqID) == msg.RequestID })";
+     "s.rcvLocker.waitIfLock()"]%string /\
+  In "s.popHandler(reqID)"%string src_sync_sendAsyncWithTimeout /\
+  src_sync_lockIf = ["c.lockMu.Lock()"; "cond()"; "c.lockMu.Unlock()"]%string /\
+  firstn 6 src_sync_open = ["s.rcvLocker.unlock()"; "s.openingMu.Lock()"; "s.openingMu.Unlock()"; "s.nextRequestID()";
+     "atomic.StoreUint32(&s.openingReqID, reqID)"; "atomic.StoreUint32(&s.openingReqID, 0)"]%string.
 Proof. repeat split; try reflexivity. vm_compute. tauto. Qed.
 
 Print Assumptions C19_slot_released.
@@ -140,8 +164,9 @@ Print Assumptions C19_timer_enabled.
 Print Assumptions C19_ctx_enabled.
 Print Assumptions C19_later_responses_delivered.
 Print Assumptions C19_dispatcher_progress.
-Print Assumptions C19_refuted_gate_race.
-Print Assumptions C19_refuted_gate_unsolicited.
-Print Assumptions C19_refuted_gate.
-Print Assumptions C19_partial_gate.
+Print Assumptions C19_gate.
+Print Assumptions C19_gate_open_when_not_opening.
+Print Assumptions C19_refuted_before_fix_gate_race.
+Print Assumptions C19_refuted_before_fix_gate_unsolicited.
+Print Assumptions C19_refuted_before_fix_gate.
 Print Assumptions C19_tie_source_shape.
